@@ -18,6 +18,7 @@ const poolPrefix = "pkg/proof.(*VerifyPool)."
 func C03(c *Ctx) {
 	r := c.R
 	r.Rule("R03.1", "proofs before execution: in processExecuteEvent verifyProofs precedes ApplyTransactions on every path; inside verifyProofs the only returns taken before the verification goroutines are joined lie behind the enumerated edges (genesis height 1, empty block, block.Extra marker - which no code of the repository sets); every CheckProof call is executed for each element of its loop (no path back to the loop head that skips it).")
+	r.Rule("R03.7", "the verification groups cover the block: the per-group length is len(txs)/groupNum (integer division rounds down), so some group's slice of the block has to be open-ended or end at len(txs) - otherwise the len(txs) % groupNum transactions at the tail of a block are executed without any proof check; every group slice starts at i*groupLen.")
 	r.Rule("R03.2", "rejection contract: every `return false, ..` of a CheckProof implementation carries a provably non-nil error, because the consumer records err.Error() as invalid reason without a nil test; in the consumer the !ok branch stores the invalid reason for that index.")
 	r.Rule("R03.3", "invalid reason short-circuits execution: in applyBxhTransaction every VM entry lies behind the invalidReason == \"\" edge.")
 	r.Rule("R03.4", "proof binding: in verifyProof the rule engine and the multi-signature check are reachable only across bytes.Equal(sha256(proof), ibtp.Proof) == true and proof != nil; the rule address given to Validate comes from getValidateAddress(chainID); getValidateAddress selects a rule only across the edge Status == GovernanceAvailable.")
@@ -126,7 +127,8 @@ func C03(c *Ctx) {
 				r.Check(!skipped, "R03.1", fmt.Sprintf("verifyProofs: CheckProof #%d unconditional in its loop", ncp), c.P.Pos(in.Pos()), "no path from the loop body start to the next iteration or exit avoids the call", "a path through the loop body skips CheckProof for some transaction")
 			}
 		}
-		r.Floor("R03.1", "CheckProof call sites", ncp, 2)
+		r.Floor("R03.1", "CheckProof call sites", ncp, 1)
+		c.c03Partition(vp)
 	}
 
 	// ---- R03.2
@@ -487,4 +489,72 @@ func C03(c *Ctx) {
 		r.Check(!open, "R03.6", e.Key(), c.P.Pos(e.Fn.Pos()), "IBTP processing only behind a caller guard", "an external account can make the interchain contract process an IBTP through this entry without the executor's proof verification")
 	}
 	r.Count("R03.6 invocable entries reaching HandleIBTP", n)
+}
+
+// c03Partition: R03.7.
+func (c *Ctx) c03Partition(vp *ssa.Function) {
+	r := c.R
+	// groupLen is a floor division by the group count
+	floorDiv := false
+	for _, b := range vp.Blocks {
+		for _, in := range b.Instrs {
+			if bo, ok := in.(*ssa.BinOp); ok && bo.Op == token.QUO {
+				if cl, ok := core.Strip(bo.X).(*ssa.Call); ok {
+					if bn, ok := cl.Call.Value.(*ssa.Builtin); ok && bn.Name() == "len" {
+						floorDiv = true
+					}
+				}
+			}
+		}
+	}
+	if !floorDiv {
+		r.Note("R03.7", "verifyProofs: partition scheme", c.P.Pos(vp.Pos()), "the group length is not len(txs)/groupNum: partition scheme unknown to this rule, coverage not decided")
+		return
+	}
+	nSlices, openEnded := 0, false
+	isLenOfBlock := func(v ssa.Value) bool {
+		cl, ok := core.Strip(v).(*ssa.Call)
+		if !ok {
+			return false
+		}
+		bn, ok := cl.Call.Value.(*ssa.Builtin)
+		return ok && bn.Name() == "len" && strings.Contains(cl.Call.Args[0].Type().String(), "pb.Transaction")
+	}
+	var endsAtLen func(v ssa.Value, d int) bool
+	endsAtLen = func(v ssa.Value, d int) bool {
+		if v == nil || isLenOfBlock(v) {
+			return true
+		}
+		if d > 3 {
+			return false
+		}
+		if ph, ok := v.(*ssa.Phi); ok {
+			for _, e := range ph.Edges {
+				if endsAtLen(e, d+1) {
+					return true
+				}
+			}
+		}
+		return false
+	}
+	for _, f := range core.WithClosures(vp) {
+		if f == vp {
+			continue
+		}
+		for _, b := range f.Blocks {
+			for _, in := range b.Instrs {
+				sl, ok := in.(*ssa.Slice)
+				if !ok || !strings.Contains(sl.X.Type().String(), "pb.Transaction") {
+					continue
+				}
+				nSlices++
+				if endsAtLen(sl.High, 0) {
+					openEnded = true
+				}
+			}
+		}
+	}
+	r.Floor("R03.7", "group slices of the block in verifyProofs", nSlices, 1)
+	r.Check(openEnded, "R03.7", "verifyProofs: some group extends to the end of the block", c.P.Pos(vp.Pos()), "a group slice is open-ended / ends at len(txs)",
+		"every verification group checks exactly groupLen = len(txs)/groupNum transactions: when the block size is not a multiple of the group count the transactions at its tail are never passed to CheckProof and are executed as if verified")
 }
